@@ -140,6 +140,11 @@ def run(ctx: Context) -> None:
             okq = norm(g.iter) == "self._requests" and norm(q[0].value.elt) == norm(g.target) and [norm(i) for i in g.ifs] == [f"{norm(g.target)}.is_queued()"]
         loops = [n for n in own_nodes(ap.node) if isinstance(n, ast.For) and norm(n.iter) == "queued_requests"]
         rep.ob("C07.R2", fkey(tree, ap, "fifo-scan"), okq and bool(loops), where(ap, q[0] if q else None), "queued requests are scanned in arrival order (list comprehension over self._requests filtered by is_queued())")
+        for lp in loops:
+            exits = [x for x in ast.walk(lp) if isinstance(x, (ast.Break, ast.Return))]
+            rep.ob("C07.R2", fkey(tree, ap, "scan-visits-every-waiter"), not exits, where(ap, exits[0] if exits else lp),
+                   "the scan examines every queued request (no early exit)" if not exits else
+                   "the queue scan stops early: a waiter behind an unserviceable request is not examined although a pooled (e.g. multiplexed HTTP/2) connection could take it")
         # R3
         ph = N.func("connection_pool", "AsyncConnectionPool.handle_async_request")
         hs = [h for h in own_nodes(ph.node) if isinstance(h, ast.ExceptHandler) and ctx.escape.handler_types(ph.module, h) == ["ConnectionNotAvailable"]]
